@@ -9,10 +9,46 @@ import json
 from vlib import Fatal
 
 
+def inductive_lock(ctx):
+    """Thorough tier, design level: OutboxLock.tla (acquire / write a piece / release, any number of senders) -
+    Apalache discharges IndInv as an inductive invariant (Init => IndInv; IndInv /\\ Next => IndInv' from an ARBITRARY
+    state satisfying IndInv, not only the reachable ones) for 4 senders, sizes <= 6, wire windows <= 6; IndInv contains
+    WholeFrames.  Negative control: without the `lock = 0` guard of Acquire the step must fail."""
+    import subprocess, shutil, os, re
+    sd = ctx.specdir
+    res = {}
+    def apa(workdir, init, length):
+        cmd = ["apalache-mc", "check", "--cinit=ConstInit", "--init=" + init, "--inv=IndInv", "--length=%d" % length,
+               "--out-dir=" + os.path.join(ctx.scratch, "apalache-out"), "MC_OutboxLock.tla"]
+        try:
+            p = subprocess.run(cmd, cwd=workdir, capture_output=True, text=True, timeout=900)
+        except subprocess.TimeoutExpired:
+            return "timeout"
+        m = re.search(r"EXITCODE: (\S+)", p.stdout)
+        return m.group(1) if m else "rc=%d" % p.returncode
+    res["base"] = apa(sd, "Init", 0)
+    res["step"] = apa(sd, "IndInit", 1)
+    bad = os.path.join(ctx.scratch, "apalache-neg")
+    os.makedirs(bad, exist_ok=True)
+    src = open(os.path.join(sd, "OutboxLock.tla")).read()
+    assert "Acquire(i) == /\\ lock = 0 /\\ off[i] = 0" in src
+    open(os.path.join(bad, "OutboxLock.tla"), "w").write(src.replace("Acquire(i) == /\\ lock = 0 /\\ off[i] = 0", "Acquire(i) == /\\ off[i] = 0"))
+    shutil.copy(os.path.join(sd, "MC_OutboxLock.tla"), bad)
+    res["negative_control_step"] = apa(bad, "IndInit", 1)
+    ctx.notes["apalache_inductive_invariant"] = dict(res, module="OutboxLock", invariant="IndInv (contains WholeFrames)",
+                                                     bounds="MaxTx=4, MaxLen=6, Chunk=2, wire window 6")
+    from vlib import Fatal, log
+    log("APALACHE OutboxLock: base=%s step=%s negative-control=%s" % (res["base"], res["step"], res["negative_control_step"]))
+    if res["base"] != "OK" or res["step"] != "OK" or res["negative_control_step"] == "OK":
+        raise Fatal("OutboxLock inductive invariant check: %r" % res)
+
+
 def run(ctx, prop):
     quick = ctx.quick()
     ctx.build(name="vh-outbox")
     ctx.model_check("MC_Outbox", "MC_Outbox.cfg", coverage=False, timeout=300)
+    if not quick:
+        inductive_lock(ctx)
     _, items = ctx.generate("MC_Outbox", "Gen_Outbox.cfg", "sched_all.ndjson", timeout=300)
     uniq = {}
     for it in items:
